@@ -41,7 +41,7 @@ DEV_WHAT = {
 C25_INV = ["OneReconnector", "NoStrayReconnector", "RemovedNotReconnected", "NotifiedOnce", "UpNotified", "UpHasPools"]
 C45_INV = ["AllClosed", "Refused"]
 ALL_INV = ["TypeOK"] + C25_INV + C45_INV
-WITNESSES = {"C25": ["Witness_Reconnected", "Witness_ReconRetry"], "C45": ["Witness_ShutdownWithWork", "Witness_ShutdownMidUp"]}
+WITNESSES = {"C25": ["Witness_Reconnected", "Witness_ReconRetry", "Witness_CancelledInFlight"], "C45": ["Witness_ShutdownWithWork", "Witness_ShutdownMidUp"]}
 C45_VARS = {"nopen", "ctl", "ctlPend", "flags", "req"}
 ACTIONS = ("Exec", "Fire", "ConnFailure", "StatusEvent", "TopologyEvent", "SetMode", "CtlFail", "ShutdownA", "ShutdownS",
            "ShutdownE", "Request")
@@ -55,7 +55,8 @@ def C(hosts, known0, sessions=(1,), ignored=(), events=2, env=(), fine=False):
 def configs(pid, quick):
     if pid == "C25":
         if quick:
-            return [("2hosts", C({2, 3}, {2}, events=2, env={"fail", "status", "mode", "topo"}))]
+            # one subject host (it can fail, flap, refuse, be removed); NEW_NODE / on_add: recorded runs and thorough tier
+            return [("1host", C({2}, {2}, events=2, env={"fail", "status", "mode", "topo"}))]
         # small graphs first: what they leave of the replay budget goes to the large ones
         return [("2sessions-fine", C({2}, {2}, sessions={1, 2}, events=1, env={"fail", "status", "mode"}, fine=True)),
                 ("ignored", C({2, 3}, {2, 3}, ignored={3}, events=2, env={"fail", "status", "mode"})),
@@ -93,7 +94,7 @@ def probes():
     return {
         "D1_late_pool": (one, [
             X("AddPool", s=1, h=2, kind="init"), A("ConnFailure", s=1, h=2), X("OnDown", h=2),
-            X("PoolShut", s=1, h=2, f2=True), F("Recon", h=2, kind="att"), X("Recon", h=2, kind="att"),
+            X("PoolShut", s=1, h=2, f2=True), F("Recon", h=2, kind="att"), X("Recon", h=2, kind="att"), X("ReconConn", h=2, kind="att"),
             A("ShutdownA"), A("ShutdownS"), X("AddPool", s=1, h=2, kind="up"), A("ShutdownE")],
             lambda p, bad: bool(bad.get("connections_still_open"))),
         "D2_discount_pool": (two, [
@@ -107,7 +108,7 @@ def probes():
         "D5_up_loop": (fine, [
             X("AddPool", s=2, h=2, kind="init"), A("ConnFailure", s=1, h=2), A("ConnFailure", s=2, h=2),
             X("OnDown", h=2), X("OnDown", h=2), X("PoolShut", s=1, h=2, f2=True), X("PoolShut", s=2, h=2, f2=True),
-            F("Recon", h=2, kind="att"), X("Recon", h=2, kind="att"), X("AddPool", s=1, h=2, kind="up"),
+            F("Recon", h=2, kind="att"), X("Recon", h=2, kind="att"), X("ReconConn", h=2, kind="att"), X("AddPool", s=1, h=2, kind="up"),
             X("OnUpCont", h=2, f1=True), X("AddPool", s=2, h=2, kind="up")],
             lambda p, bad: p["_listener_log"].count(("up", 2)) >= 2),
         "D4_recon_removed": (one, [
@@ -273,7 +274,7 @@ def run(ctx, pid):
     tcfg = tlc.write_cfg(os.path.join(ctx.scratch, "trace.cfg"), init="TraceInit", next="TraceNext", constants=tconsts,
                          invariants=built_inv, constraints=["Progress"], postcondition="Done", deadlock=False)
     jobs["trace"] = pool.submit(tlc.validate_traces, "Trace_Hosts", tcfg, traces + [bad1, bad2, bad3], ctx.scratch, timeout=2400)
-    wc = dict(C({2}, {2}, events=2, env={"fail", "mode"}), Fixed=set(ALL_DEV))
+    wc = dict(C({2}, {2}, events=2, env={"fail", "mode", "status"}), Fixed=set(ALL_DEV))
     p = tlc.write_cfg(os.path.join(ctx.scratch, "witness.cfg"), constants=wc, invariants=WITNESSES[pid], deadlock=False)
     jobs["witness"] = pool.submit(tlc.run_tlc, "Hosts", p, ctx.scratch, timeout=900, workers=2, extra=["-continue"])
     if present and quick:
